@@ -5,10 +5,12 @@ import (
 	"fmt"
 	"math/rand"
 	"sync"
+	"time"
 
 	"github.com/hashicorp/memberlist"
 	"github.com/jamf/regatta/storage/cluster"
 	"github.com/lni/dragonboat/v4"
+	"github.com/lni/dragonboat/v4/raftio"
 )
 
 // runC19Cluster drives a real cluster.Cluster (a real memberlist bound to a loopback port, never joined) through its
@@ -193,6 +195,50 @@ func runC19Cluster(rf *runFlags, sum *Summary, cf *CasesFile) error {
 		sum.Evaluations++
 		sum.DistinctNontrivial++
 		_ = cl.Close()
+	}
+	return nil
+}
+
+// runC19EngineEvents: the view of a real storage.Engine (real cluster layer, real event dispatcher).  A shard's entry
+// holds a leader and a term; the node's own replica of that shard is unloaded / deleted (table stopped, restarted,
+// restored); afterwards a lagging peer's view with an older term arrives.  What the node reports must not move back.
+func runC19EngineEvents(sum *Summary) error {
+	node, err := newC05Node("c19events", 0, 0, 0, nil)
+	if err != nil {
+		return err
+	}
+	defer func() {
+		done := make(chan struct{})
+		go func() { _ = node.e.Close(); close(done) }()
+		select {
+		case <-done:
+		case <-time.After(20 * time.Second):
+		}
+	}()
+	ev := node.e.VerifSystemEvents()
+	cl := node.e.Cluster
+	merge := func(shard, leader, term, cci uint64) {
+		gv := []dragonboat.ShardView{{ShardID: shard, LeaderID: leader, Term: term, ConfigChangeIndex: cci, Replicas: map[uint64]string{1: "a", 2: "b", 3: "c"}}}
+		buf, _ := json.Marshal(map[string]any{"shard_view": gv})
+		cl.VerifMergeRemoteState(buf)
+	}
+	for i, kind := range []string{"unloaded", "deleted"} {
+		shard := uint64(88000 + i)
+		merge(shard, 2, 5, 7)
+		if kind == "unloaded" {
+			ev.NodeUnloaded(raftio.NodeInfo{ShardID: shard, ReplicaID: 1})
+		} else {
+			ev.NodeDeleted(raftio.NodeInfo{ShardID: shard, ReplicaID: 1})
+		}
+		time.Sleep(300 * time.Millisecond) // the dispatcher handles the event
+		merge(shard, 1, 4, 3)
+		got := cl.ShardInfo(shard)
+		sum.Evaluations++
+		sum.hist("cluster_events").Inc("local replica " + kind + ", then a lagging peer's view")
+		if got.LeaderID != 2 || got.Term != 5 || got.ConfigChangeIndex != 7 {
+			sum.violate(610000+i, "reported leader/term moved backwards", map[string]any{"events": []string{"peer view: shard leader 2 term 5 config-change 7", "the node's own replica of the shard is " + kind, "peer view: leader 1 term 4 config-change 3"}},
+				fmt.Sprintf("the node now reports leader %d term %d config-change %d", got.LeaderID, got.Term, got.ConfigChangeIndex))
+		}
 	}
 	return nil
 }
